@@ -20,6 +20,10 @@ fn h<T: Hash>(t: &T) -> u64 {
 }
 
 pub fn check_value(loc: &Locale, case: &Value, st: &mut Stats, mode: Count) {
+    netted(st, || case.clone(), crate::values::case_size(case), |st| check_value_inner(loc, case, st, mode));
+}
+
+fn check_value_inner(loc: &Locale, case: &Value, st: &mut Stats, mode: Count) {
     st.eval();
     let size = case_size(case);
     let o = obs::obs_locale(loc);
